@@ -439,12 +439,13 @@ def _aspect_patterns(kern, k, stores, data, yv, xv):
     one = Rat.const(1)
     cell = lambda dy_, dx_: App('read', [data, yv + Rat.const(dy_), xv + Rat.const(dx_)])      # noqa
     bad = []
+    tiny = Fraction(1, 10 ** 40)       # a gradient that is not zero, closer to it than any tolerance (near-miss of the flat test)
     try:
-        for dx in (-1, 0, 1):
-            for dy in (-1, 0, 1):
+        for dx in (-1, 0, 1, tiny, -tiny):
+            for dy in (-1, 0, 1, tiny, -tiny):
                 env = {cell(a_, b_): Fraction(0) for a_ in (-1, 0, 1) for b_ in (-1, 0, 1)}
-                env[cell(0, 1)] = Fraction(dx, 2)        # dz_dx = 2 * (east - west)
-                env[cell(1, 0)] = Fraction(dy, 2)        # dz_dy = 2 * (south row - north row)
+                env[cell(0, 1)] = Fraction(dx) / 2        # dz_dx = 2 * (east - west)
+                env[cell(1, 0)] = Fraction(dy) / 2        # dz_dy = 2 * (south row - north row)
                 for s in stores:
                     for a in walk_atoms((s.value, tuple(s.guards))):
                         if isinstance(a, App) and a.name == 'arctan2' and a not in env:
@@ -452,18 +453,18 @@ def _aspect_patterns(kern, k, stores, data, yv, xv):
                             env[a] = Fraction(math.atan2(float(y_), float(x_)))
                 fired = [s for s in stores if all(eval_cond_full(g, env) for g in s.guards)]
                 if not fired:
-                    bad.append('no store for (dz_dx, dz_dy) = (%d, %d)' % (dx, dy))
+                    bad.append('no store for (dz_dx, dz_dy) = (%s, %s)' % (float(dx), float(dy)))
                     continue
                 got = evaluate(fired[-1].value, env)
                 if dx == 0 and dy == 0:
                     want = Fraction(-1)
                 else:
-                    t = math.degrees(math.atan2(dy, -dx))
+                    t = math.degrees(math.atan2(float(dy), float(-dx)))
                     want = Fraction(90 - t if t <= 90 else 450 - t)
                     if want == 360 and got == 0:
                         want = Fraction(0)
                 if abs(got - want) > Fraction(1, 10 ** 6):
-                    bad.append('(dz_dx, dz_dy) = (%d, %d): %s, expected %s' % (dx, dy, float(got), float(want)))
+                    bad.append('(dz_dx, dz_dy) = (%s, %s): %s, expected %s' % (float(dx), float(dy), float(got), float(want)))
     except (CannotEvaluate, KeyError, ZeroDivisionError, ValueError):
         return None
     return (not bad, '; '.join(bad[:3]))
